@@ -782,6 +782,34 @@ theorem model_assumptions_tie_helpers :
     Generated.C03.body_decryptSymmetricChaCha20Poly1305 = ["sealed := make([]byte, 0, len(ciphertext)+len(tag))", "sealed = append(sealed, ciphertext...)", "sealed = append(sealed, tag...)", "return aead.Open(nil, nonce, sealed, associatedData)"] :=
   ⟨rfl, rfl, rfl, rfl, rfl, rfl, rfl, rfl, rfl, rfl, rfl, rfl⟩
 
+/-- The asymmetric side as rendered from the source: what every entry point does before its
+`switch algorithm` (nothing, the octet-key check, or `key.PublicKey()`), and the whole body of each of
+the 12 helpers (`key.Raw` into the Go key type, the curve check, ONE stdlib call with the arguments
+shown, the `rsa.ErrVerification` mapping) — what `asymPlan` / `asymGuard` / `verifyPublicKey` model.
+No state between calls, no parsing of their own. -/
+theorem model_assumptions_tie_asym :
+    Generated.C03.pre_Encrypt = [] ∧
+    Generated.C03.pre_Decrypt = [] ∧
+    Generated.C03.pre_EncryptSymmetric = ["var keyBytes []byte", "if key.KeyType() != jwa.OctetSeq || key.Raw(&keyBytes) != nil { return nil, nil, ErrKeyTypeMismatch }"] ∧
+    Generated.C03.pre_DecryptSymmetric = ["var keyBytes []byte", "if key.KeyType() != jwa.OctetSeq || key.Raw(&keyBytes) != nil { return nil, ErrKeyTypeMismatch }"] ∧
+    Generated.C03.pre_EncryptPublicKey = ["key, err = key.PublicKey()", "if err != nil { return nil, ErrKeyTypeMismatch }"] ∧
+    Generated.C03.pre_DecryptPrivateKey = [] ∧
+    Generated.C03.pre_SignPrivateKey = [] ∧
+    Generated.C03.pre_VerifyPublicKey = ["key, err = key.PublicKey()", "if err != nil { return false, ErrKeyTypeMismatch }"] ∧
+    Generated.C03.abody_encryptPublicKeyRSAPKCS1v15 = ["rsaKey := &rsa.PublicKey{}", "if key.Raw(rsaKey) != nil { return nil, ErrKeyTypeMismatch }", "return rsa.EncryptPKCS1v15(rand.Reader, rsaKey, plaintext)"] ∧
+    Generated.C03.abody_encryptPublicKeyRSAOAEP = ["rsaKey := &rsa.PublicKey{}", "if key.Raw(rsaKey) != nil { return nil, ErrKeyTypeMismatch }", "return rsa.EncryptOAEP(hash.New(), rand.Reader, rsaKey, plaintext, label)"] ∧
+    Generated.C03.abody_decryptPrivateKeyRSAPKCS1v15 = ["rsaKey := &rsa.PrivateKey{}", "if key.Raw(rsaKey) != nil { return nil, ErrKeyTypeMismatch }", "return rsa.DecryptPKCS1v15(rand.Reader, rsaKey, ciphertext)"] ∧
+    Generated.C03.abody_decryptPrivateKeyRSAOAEP = ["rsaKey := &rsa.PrivateKey{}", "if key.Raw(rsaKey) != nil { return nil, ErrKeyTypeMismatch }", "return rsa.DecryptOAEP(hash.New(), rand.Reader, rsaKey, ciphertext, label)"] ∧
+    Generated.C03.abody_signPrivateKeyRSAPKCS1v15 = ["rsaKey := &rsa.PrivateKey{}", "if key.Raw(rsaKey) != nil { return nil, ErrKeyTypeMismatch }", "return rsa.SignPKCS1v15(rand.Reader, rsaKey, hash, digest)"] ∧
+    Generated.C03.abody_signPrivateKeyRSAPSS = ["rsaKey := &rsa.PrivateKey{}", "if key.Raw(rsaKey) != nil { return nil, ErrKeyTypeMismatch }", "return rsa.SignPSS(rand.Reader, rsaKey, hash, digest, nil)"] ∧
+    Generated.C03.abody_signPrivateKeyECDSA = ["ecdsaKey := &ecdsa.PrivateKey{}", "if key.Raw(ecdsaKey) != nil || ecdsaKey.Curve != curve { return nil, ErrKeyTypeMismatch }", "return ecdsa.SignASN1(rand.Reader, ecdsaKey, digest)"] ∧
+    Generated.C03.abody_signPrivateKeyEdDSA = ["if key.KeyType() != jwa.OKP { return nil, ErrKeyTypeMismatch }", "okpKey, ok := key.(jwk.OKPPrivateKey)", "if !ok { return nil, ErrKeyTypeMismatch }", "switch okpKey.Crv() { case jwa.Ed25519: ed25519Key := &ed25519.PrivateKey{} if okpKey.Raw(ed25519Key) != nil { return nil, ErrKeyTypeMismatch } return ed25519.Sign(*ed25519Key, message), nil default: return nil, ErrKeyTypeMismatch }"] ∧
+    Generated.C03.abody_verifyPublicKeyRSAPKCS1v15 = ["rsaKey := &rsa.PublicKey{}", "if key.Raw(rsaKey) != nil { return false, ErrKeyTypeMismatch }", "err := rsa.VerifyPKCS1v15(rsaKey, hash, digest, signature)", "if err != nil { if errors.Is(err, rsa.ErrVerification) { err = nil } return false, err }", "return true, nil"] ∧
+    Generated.C03.abody_verifyPublicKeyRSAPSS = ["rsaKey := &rsa.PublicKey{}", "if key.Raw(rsaKey) != nil { return false, ErrKeyTypeMismatch }", "err := rsa.VerifyPSS(rsaKey, hash, digest, signature, nil)", "if err != nil { if errors.Is(err, rsa.ErrVerification) { err = nil } return false, err }", "return true, nil"] ∧
+    Generated.C03.abody_verifyPublicKeyECDSA = ["ecdsaKey := &ecdsa.PublicKey{}", "if key.Raw(ecdsaKey) != nil || ecdsaKey.Curve != curve { return false, ErrKeyTypeMismatch }", "return ecdsa.VerifyASN1(ecdsaKey, digest, signature), nil"] ∧
+    Generated.C03.abody_verifyPublicKeyEdDSA = ["if key.KeyType() != jwa.OKP { return false, ErrKeyTypeMismatch }", "okpKey, ok := key.(jwk.OKPPublicKey)", "if !ok { return false, ErrKeyTypeMismatch }", "switch okpKey.Crv() { case jwa.Ed25519: ed25519Key := ed25519.PublicKey{} if okpKey.Raw(&ed25519Key) != nil || len(ed25519Key) != ed25519.PublicKeySize { return false, ErrKeyTypeMismatch } return ed25519.Verify(ed25519Key, mesage, signature), nil default: return false, ErrKeyTypeMismatch }"] :=
+  ⟨rfl, rfl, rfl, rfl, rfl, rfl, rfl, rfl, rfl, rfl, rfl, rfl, rfl, rfl, rfl, rfl, rfl, rfl, rfl, rfl⟩
+
 /-! ## 7. signatures -/
 
 /-- The kinds of key the harness exercises. -/
